@@ -6,6 +6,7 @@ package main
 import (
 	"bytes"
 	"encoding/binary"
+	"errors"
 	"flag"
 	"fmt"
 	"io"
@@ -156,6 +157,19 @@ func indexJ(ix desync.Index) J {
 		"max": field(ix.Index.ChunkSizeMax, 0), "chunks": chunks}
 }
 
+// limitedWriter accepts a number of bytes and fails from then on
+type limitedWriter struct{ left int }
+
+func (l *limitedWriter) Write(p []byte) (int, error) {
+	if len(p) <= l.left {
+		l.left -= len(p)
+		return len(p), nil
+	}
+	n := l.left
+	l.left = 0
+	return n, errors.New("no space left on device")
+}
+
 func main() {
 	seed := flag.Int64("seed", 1, "seed")
 	n := flag.Int("n", 100, "indexes")
@@ -262,6 +276,23 @@ func main() {
 		}
 		b := buf.Bytes()
 		w.Emit(trace.M("ev", "enc", "index", indexJ(ix), "tokens", tokenise(b)))
+		// a destination that takes only part of the file (disk full, closed pipe): the write is reported as failed
+		for _, accept := range []int{0, r.Intn(len(b)), len(b) - 1, len(b) - 8} {
+			if accept < 0 {
+				continue
+			}
+			lw := &limitedWriter{left: accept}
+			_, werr := ix.WriteTo(lw)
+			w.Emit(trace.M("ev", "wfault", "via", "WriteTo", "accept", accept, "size", len(b), "err", werr != nil))
+		}
+		if _, serr := os.Stat("/dev/full"); serr == nil {
+			os.Remove(filepath.Join(*dir, "full.caibx"))
+			if os.Symlink("/dev/full", filepath.Join(*dir, "full.caibx")) == nil {
+				werr := lis.StoreIndex("full.caibx", ix)
+				w.Emit(trace.M("ev", "wfault", "via", "LocalIndexStore onto /dev/full", "accept", 0, "size", len(b), "err", werr != nil))
+				os.Remove(filepath.Join(*dir, "full.caibx"))
+			}
+		}
 		// the same index through the local index store and through a PUT, onto names that hold an earlier (longer or shorter) index
 		if sha512 {
 			if err := lis.StoreIndex("stored.caibx", ix); err == nil {
